@@ -23,6 +23,7 @@ TYPE_STATES = {
     'tuples': ('none', 'empty', 'nonempty'),
     'flag': ('false', 'true'),
     'sign': ('none', 'zero', 'nonzero'),
+    'count': ('zero', 'pos'),
     'opaque': ('any',),
 }
 
@@ -36,6 +37,8 @@ def atom_type(name):
     return 'tuples'
   if n in ('monotonicity', 'convexity', 'normalization_order'):
     return 'sign'
+  if n.startswith('num_') and n.endswith('iterations'):
+    return 'count'
   if ('min' in n or 'max' in n or 'bound' in n) and not n.startswith(
       'clamp') and not n.endswith('constraints'):
     return 'bound'
@@ -613,3 +616,73 @@ def trace(prog, fn, env, attr_defs=None, both_on_unknown=False):
 
   block(fn.node.body)
   return out
+
+
+# ---------------------------------------------------------------------------
+def check_bound_guards(prog, res, fn, bounds, rule='K3', attr_defs=None):
+  """K3 - each hard bound is enforced under its own guard.
+
+  bounds: [(name, 'min'|'max')] - parameter names or 'self.x' attributes of
+  fn that hold a numeric-or-None bound.  For every abstract configuration of
+  the names the tests of fn read (each bound: none / zero / nonzero), the
+  statements fn executes must contain a clip against every bound that is
+  given: tf.maximum(., b) / tf.clip_by_value(., b, .) for a min-role b,
+  tf.minimum(., b) / tf.clip_by_value(., ., b) for a max-role b.  A clip
+  nested under a test of the OTHER bound (or a single clip guarded by "both
+  given") silently drops a one-sided bound."""
+  from .roles import forward_role
+  res.analysed(fn)
+  names = [b for b, _ in bounds]
+  atoms = set(names)
+  for n in ast.walk(fn.node):
+    if isinstance(n, (ast.If, ast.IfExp)):
+      for r in names_read(n.test):
+        if atom_type(r) != 'opaque' or r in names:
+          atoms.add(r)
+  atoms = sorted(atoms)
+
+  def typ(a):
+    return 'bound' if a in names else atom_type(a)
+
+  def clips(st, b, role):
+    for c in ast.walk(st):
+      if not isinstance(c, ast.Call):
+        continue
+      ext = prog.ext_name(fn.module, c.func) or ''
+      last = ext.split('.')[-1]
+      args = list(c.args)
+      kw = {k.arg: k.value for k in c.keywords}
+      if last == 'clip_by_value' or last == 'clip':
+        lo = args[1] if len(args) > 1 else kw.get('clip_value_min',
+                                                  kw.get('a_min'))
+        hi = args[2] if len(args) > 2 else kw.get('clip_value_max',
+                                                  kw.get('a_max'))
+        cand = lo if role == 'min' else hi
+        if cand is not None and dotted(cand) == b:
+          return True
+      elif (last == 'maximum' and role == 'min') or (
+          last == 'minimum' and role == 'max'):
+        if any(dotted(a) == b for a in args):
+          return True
+    return False
+
+  n = 0
+  bad = {}
+  for combo in itertools.product(*[TYPE_STATES[typ(a)] for a in atoms]):
+    env = {a: Val(typ(a), s) for a, s in zip(atoms, combo)}
+    stmts = trace(prog, fn, env, attr_defs)
+    n += 1
+    for b, role in bounds:
+      if env[b].s == 'none':
+        continue
+      if not any(clips(st, b, role) for st in stmts):
+        bad.setdefault(b, dict(zip(atoms, combo)))
+  for b, role in bounds:
+    key = '%s|%s' % (fn.qualname, b)
+    res.check(b not in bad, rule, key, fn.loc(),
+              'in each of %d configuration states with %s given the executed '
+              'statements clip against it' % (n, b),
+              '%s is given but never clipped against in state %s: a clip '
+              'nested under the test of another bound drops one-sided bounds'
+              % (b, bad.get(b)))
+  return n
